@@ -1,14 +1,27 @@
 #!/venv/bin/python
-"""gen_known_helpers.py: freeze, for every function of /repo HEAD, the private helpers it calls (tables/known_helpers.json).
-A shape rule that fails in a function which calls a private helper *not* in this table reports `inconclusive` instead
-of a violation: the logic may have been extracted into that helper, which the rule does not read (benign direction)."""
-import ast, json, os, sys
+"""gen_known_helpers.py: freeze, for every function of /repo HEAD, the private symbols it references (helpers it calls,
+module- / class-level private names it reads) and the number of nested functions / lambdas it contains
+(tables/known_helpers.json), plus the list of all functions. A shape rule that fails in a function which references a
+private symbol *not* in this table, or has more nested functions than recorded, reports `inconclusive` instead of a
+violation: the logic may have been moved where the rule does not read (benign direction). Committed input; never
+written at run time."""
+import json, os, sys
 sys.path.insert(0, os.path.dirname(os.path.dirname(os.path.abspath(__file__))))
 from upsa.index import Index
-from upsa.report import private_callees
+from upsa.report import private_callees, nested_defs
 idx = Index()
-out = {f.qualname: sorted(private_callees(f)) for f in idx.all_funcs()}
-out = {k: v for k, v in out.items() if v}
+fs = {}
+for f in idx.all_funcs():
+    e = {}
+    r = sorted(private_callees(f))
+    n = nested_defs(f)
+    if r:
+        e["refs"] = r
+    if n:
+        e["nested"] = n
+    if e:
+        fs[f.qualname] = e
+out = {"functions": fs, "all": sorted(f.qualname for f in idx.all_funcs())}
 p = os.path.join(os.path.dirname(os.path.dirname(os.path.abspath(__file__))), "tables", "known_helpers.json")
 json.dump(out, open(p, "w"), indent=0, sort_keys=True)
-print(len(out), "functions with private callees")
+print(len(fs), "functions with private references or nested functions;", len(out["all"]), "functions")
